@@ -11,6 +11,7 @@ package main
 //   (2) every range over X or a sub-slice of X in such a block calls os.Remove on the element's file name.
 
 import (
+	"go/token"
 	"fmt"
 	"go/ast"
 	"go/types"
@@ -171,6 +172,7 @@ func init() {
 				return
 			}
 			oc := newOwnCtx(p)
+			oc.strict = true
 			n := 0
 			inspectShallow(f.Body(), func(x ast.Node) bool {
 				if rs, ok := x.(*ast.ReturnStmt); ok {
@@ -218,4 +220,368 @@ func helperRemovesEach(p *Prog, h *Fn, par types.Object) bool {
 		return true
 	})
 	return found
+}
+
+// ---- C13-g: the service's hold on a window of its list is dropped only together with the window ----
+
+func init() {
+	const expl = "C13-g (FLOW, the converse of C13-b): a release of the service's own hold on a window of Manager.indexes — indexReleaser(mgr.indexes[a:b]).release(mgr), directly or through a local — is followed on every path to the end of the closure by an assignment to Manager.indexes (the splice that removes the window). Releasing first and replacing only on success leaves, after a failed merge, readers in the list that the service no longer holds: they are closed and deleted while views still get them."
+	register("C13", expl, ruleC13ReleaseImpliesRemoval)
+	register("C10", "C10-f = "+expl, ruleC13ReleaseImpliesRemoval)
+}
+
+func ruleC13ReleaseImpliesRemoval(p *Prog, r *Res) {
+	const rule = "C13-g release-implies-removal"
+	r.Rule(rule + ": a window of Manager.indexes is released only on paths that also remove it from the list")
+	idxFld := p.Field("manager", "Manager", "indexes")
+	relM := p.Method("manager", "indexReleaser", "release")
+	if idxFld == nil || relM == nil {
+		p.anchorFail("manager.Manager.indexes / manager.indexReleaser.release")
+		return
+	}
+	n := 0
+	for _, f := range p.FnList {
+		if f.Short != "manager" || f.Body() == nil {
+			continue
+		}
+		info := f.Pkg.TypesInfo
+		// locals holding a window of Manager.indexes converted to indexReleaser
+		window := map[types.Object]string{}
+		winExpr := func(e ast.Expr) (string, bool) {
+			c, ok := ast.Unparen(e).(*ast.CallExpr)
+			if !ok || len(c.Args) != 1 {
+				return "", false
+			}
+			if tv, ok := info.Types[c.Fun]; !ok || !tv.IsType() {
+				return "", false
+			}
+			arg := ast.Unparen(c.Args[0])
+			// a copy of the window (append([]T(nil), w...), slices.Clone(w)) holds the same readers
+			for {
+				cc, ok := arg.(*ast.CallExpr)
+				if !ok {
+					break
+				}
+				if isBuiltin(info, cc, "append") && len(cc.Args) == 2 && cc.Ellipsis.IsValid() && isEmptySliceExpr(cc.Args[0]) {
+					arg = ast.Unparen(cc.Args[1])
+					continue
+				}
+				if fn := p.Callee(f.Pkg, cc); fn != nil && fn.Pkg() != nil && fn.Pkg().Path() == "slices" && fn.Name() == "Clone" && len(cc.Args) == 1 {
+					arg = ast.Unparen(cc.Args[0])
+					continue
+				}
+				break
+			}
+			sl, ok := arg.(*ast.SliceExpr)
+			if !ok || !isFieldOf(info, sl.X, idxFld) {
+				return "", false
+			}
+			return types.ExprString(sl), true
+		}
+		inspectShallow(f.Body(), func(x ast.Node) bool {
+			if as, ok := x.(*ast.AssignStmt); ok && len(as.Lhs) == len(as.Rhs) {
+				for i, rh := range as.Rhs {
+					if w, ok := winExpr(rh); ok {
+						if o := identObj(info, as.Lhs[i]); o != nil {
+							window[o] = w
+						}
+					}
+				}
+			}
+			return true
+		})
+		var fl *Flow
+		isRelease := func(nd ast.Node) (bool, string) {
+			hit, w := false, ""
+			inspectShallow(nd, func(y ast.Node) bool {
+				c, ok := y.(*ast.CallExpr)
+				if !ok || p.Callee(f.Pkg, c) != relM {
+					return true
+				}
+				se, ok := ast.Unparen(c.Fun).(*ast.SelectorExpr)
+				if !ok {
+					return true
+				}
+				if o := identObj(info, se.X); o != nil && window[o] != "" {
+					hit, w = true, window[o]
+				}
+				if ww, ok := winExpr(se.X); ok {
+					hit, w = true, ww
+				}
+				return true
+			})
+			return hit, w
+		}
+		isListChange := func(nd ast.Node) bool {
+			as, ok := nd.(*ast.AssignStmt)
+			if !ok {
+				return false
+			}
+			for _, l := range as.Lhs {
+				if isFieldOf(info, l, idxFld) {
+					return true
+				}
+			}
+			return false
+		}
+		if len(window) == 0 {
+			// still look for direct conversions in release calls
+			has := false
+			inspectShallow(f.Body(), func(x ast.Node) bool {
+				if h, _ := isRelease(x); h {
+					has = true
+				}
+				return !has
+			})
+			if !has {
+				continue
+			}
+		}
+		fl = p.Flow(f)
+		for _, pt := range fl.Find(func(nd ast.Node) bool { h, _ := isRelease(nd); return h }) {
+			_, w := isRelease(fl.node(pt))
+			n++
+			key := fmt.Sprintf("%s release of %s", f.Key(), w)
+			res := fl.ExitAvoiding([]Pt{After(pt)}, isListChange)
+			// an implicit end of the closure without return statement: ExitAvoiding only sees returns; closures
+			// ending by falling off the end have a synthetic return in go/cfg? — covered by treating block ends below
+			// the splice may also come first (release of a copied window after the list was replaced): then it lies on every
+			// path from the entry of the closure to the release
+			if before := fl.Reach([]Pt{fl.Entry()}, func(nd ast.Node) bool { return nd == fl.node(pt) }, isListChange); !before.Found {
+				r.Ok(rule, key, p.Pos(fl.node(pt)), "the window was removed from Manager.indexes on every path to this release")
+				continue
+			}
+			if res.Found || fallsOffEndAvoiding(fl, After(pt), isListChange) {
+				r.Bad(rule, key, p.Pos(fl.node(pt)), "the service's hold on "+w+" is dropped, but a path to the end of the closure leaves these readers in Manager.indexes: their use count can reach zero while the list (and every later view) still contains them — the files are closed and deleted under their readers")
+			} else {
+				r.Ok(rule, key, p.Pos(fl.node(pt)), "every path after the release replaces the window in Manager.indexes")
+			}
+		}
+	}
+	r.Floor(rule, 1, n)
+}
+
+// fallsOffEndAvoiding: a block without successors (end of the function body, no return statement) is reachable from
+// start without passing a node satisfying pass.
+func fallsOffEndAvoiding(fl *Flow, start Pt, pass func(ast.Node) bool) bool {
+	type st struct{ pt Pt }
+	seen := map[Pt]bool{}
+	work := []Pt{start}
+	for len(work) > 0 {
+		pt := work[0]
+		work = work[1:]
+		if seen[pt] {
+			continue
+		}
+		seen[pt] = true
+		if pt.I < len(pt.B.Nodes) {
+			n := pt.B.Nodes[pt.I]
+			if pass(n) || isReturn(n) {
+				continue
+			}
+			work = append(work, Pt{pt.B, pt.I + 1})
+			continue
+		}
+		if len(pt.B.Succs) == 0 {
+			return true
+		}
+		for si, s := range pt.B.Succs {
+			if fl.EdgeOK != nil && !fl.EdgeOK(pt.B, si) {
+				continue
+			}
+			work = append(work, Pt{s, 0})
+		}
+	}
+	return false
+}
+
+// ---- C13-h / C07-h: the offset a job splices at is the offset its run was taken from ----
+
+func init() {
+	const expl = "C07-h (AST, typed): a job that is handed a run of Manager.indexes taken with getIndexesCopy(S), together with an integer that the job's completion uses as a bound of a slice of Manager.indexes (the offset of the run), is started with that integer equal to S — the same expression. A loop-relative index passed as the offset makes the completion replace a different run than the one that was merged: an unmerged file is dropped from the list and deleted."
+	register("C07", expl, ruleJobOffsetAgrees)
+	register("C13", "C13-h = "+expl, ruleJobOffsetAgrees)
+}
+
+func ruleJobOffsetAgrees(p *Prog, r *Res) {
+	const rule = "C07-h job-offset-is-snapshot-offset"
+	r.Rule(rule + ": the run offset handed to a job equals the start of the run handed to it")
+	idxFld := p.Field("manager", "Manager", "indexes")
+	copyM := p.Method("manager", "Manager", "getIndexesCopy")
+	if idxFld == nil || copyM == nil {
+		p.anchorFail("manager.Manager.indexes / getIndexesCopy")
+		return
+	}
+	ctx := p.Contexts()
+	n := 0
+	for _, gs := range ctx.GoSites {
+		if gs.In.Short != "manager" || gs.Callee == nil {
+			continue
+		}
+		f := gs.In
+		info := f.Pkg.TypesInfo
+		// start expression of the list argument
+		start := ""
+		var startExpr ast.Expr
+		for _, a := range gs.Stmt.Call.Args {
+			obj := identObj(info, a)
+			if obj == nil {
+				continue
+			}
+			inspectShallow(f.Body(), func(x ast.Node) bool {
+				if as, ok := x.(*ast.AssignStmt); ok && len(as.Rhs) == 1 && len(as.Lhs) >= 1 && sameObj(info, as.Lhs[0], obj) {
+					if c, ok := as.Rhs[0].(*ast.CallExpr); ok && p.Callee(f.Pkg, c) == copyM && len(c.Args) == 1 {
+						start = exprString(p.Fset, c.Args[0])
+						startExpr = c.Args[0]
+					}
+				}
+				return true
+			})
+		}
+		if start == "" {
+			continue
+		}
+		callee := gs.Callee
+		cinfo := callee.Pkg.TypesInfo
+		for i, a := range gs.Stmt.Call.Args {
+			t := info.TypeOf(a)
+			if b, ok := t.Underlying().(*types.Basic); !ok || b.Info()&types.IsInteger == 0 {
+				continue
+			}
+			po := paramObj(callee, i)
+			if po == nil {
+				continue
+			}
+			// does the callee (incl. its closures) use the parameter as a bound of a slice of Manager.indexes?
+			usedAsBound := false
+			ast.Inspect(callee.Body(), func(x ast.Node) bool {
+				if sl, ok := x.(*ast.SliceExpr); ok && isFieldOf(cinfo, sl.X, idxFld) {
+					for _, bnd := range []ast.Expr{sl.Low, sl.High} {
+						if bnd == nil {
+							continue
+						}
+						ast.Inspect(bnd, func(y ast.Node) bool {
+							if id, ok := y.(*ast.Ident); ok && cinfo.Uses[id] == po {
+								usedAsBound = true
+							}
+							return true
+						})
+					}
+				}
+				return true
+			})
+			if !usedAsBound {
+				continue
+			}
+			n++
+			// locals that are defined exactly once stand for their defining expression (off := i)
+			var norm func(e ast.Expr, depth int) string
+			norm = func(e ast.Expr, depth int) string {
+				e = ast.Unparen(e)
+				if id, ok := e.(*ast.Ident); ok && depth < 4 {
+					if o := info.Uses[id]; o != nil {
+						var def ast.Expr
+						nDef := 0
+						inspectShallow(f.Body(), func(x ast.Node) bool {
+							switch s := x.(type) {
+							case *ast.AssignStmt:
+								for k, l := range s.Lhs {
+									if identObj(info, l) == o {
+										nDef++
+										if len(s.Lhs) == len(s.Rhs) && (s.Tok == token.DEFINE || s.Tok == token.ASSIGN) {
+											def = s.Rhs[k]
+										} else {
+											nDef++
+										}
+									}
+								}
+							case *ast.IncDecStmt:
+								if identObj(info, s.X) == o {
+									nDef += 2
+								}
+							case *ast.RangeStmt:
+								if identObj(info, s.Key) == o || identObj(info, s.Value) == o {
+									nDef += 2
+								}
+							}
+							return true
+						})
+						if nDef == 1 && def != nil {
+							return norm(def, depth+1)
+						}
+					}
+				}
+				return exprString(p.Fset, e)
+			}
+			got := norm(a, 0)
+			if startExpr != nil {
+				start = norm(startExpr, 0)
+			}
+			key := fmt.Sprintf("%s: go %s(… %s …) offset", f.Key(), types.ExprString(gs.Stmt.Call.Fun), po.Name())
+			r.Check(got == start, rule, key, p.Pos(gs.Stmt), "offset argument "+got+" is the start of getIndexesCopy("+start+")", "the job is handed the run Manager.indexes["+start+":] but told that it starts at "+got+": its completion replaces (and releases) a different run than the one it merged")
+		}
+	}
+	r.Floor(rule, 1, n)
+}
+
+// ---- C13-i: a release gives back every count it holds ----
+
+func init() {
+	register("C13",
+		"C13-i (AST): indexReleaser.release walks the whole releaser: the range loop over the released readers contains no return, no unlabelled break and no goto, so a failing Close/Remove of one superseded file cannot leave the counts of the remaining readers of that releaser held for ever.",
+		func(p *Prog, r *Res) {
+			const rule = "C13-i release-is-total"
+			r.Rule(rule + ": the loop in indexReleaser.release visits every reader of the releaser")
+			f := p.Fn("manager.indexReleaser.release")
+			if f == nil {
+				p.anchorFail("manager.indexReleaser.release")
+				return
+			}
+			n := 0
+			inspectShallow(f.Body(), func(x ast.Node) bool {
+				rs, ok := x.(*ast.RangeStmt)
+				if !ok {
+					return true
+				}
+				n++
+				bad := ""
+				var walk func(nd ast.Node, inner int)
+				walk = func(nd ast.Node, inner int) {
+					ast.Inspect(nd, func(y ast.Node) bool {
+						switch s := y.(type) {
+						case *ast.FuncLit:
+							return false
+						case *ast.ForStmt:
+							walk(s.Body, inner+1)
+							return false
+						case *ast.RangeStmt:
+							if s != rs {
+								walk(s.Body, inner+1)
+								return false
+							}
+						case *ast.SwitchStmt, *ast.TypeSwitchStmt, *ast.SelectStmt:
+							// a break inside leaves the switch, not the loop
+							ast.Inspect(s, func(z ast.Node) bool {
+								if rt, ok := z.(*ast.ReturnStmt); ok {
+									bad = "return at " + p.Pos(rt)
+								}
+								return true
+							})
+							return false
+						case *ast.ReturnStmt:
+							bad = "return at " + p.Pos(s)
+						case *ast.BranchStmt:
+							if (s.Tok == token.BREAK && s.Label == nil && inner == 0) || s.Tok == token.GOTO {
+								bad = s.Tok.String() + " at " + p.Pos(s)
+							}
+						}
+						return true
+					})
+				}
+				walk(rs.Body, 0)
+				r.Check(bad == "", rule, "manager.indexReleaser.release loop over the releaser", p.Pos(rs), "no return/break inside the loop", "the loop can be left early ("+bad+"): the readers after that point keep the counts this releaser held — their files stay open and on disk for ever")
+				return true
+			})
+			r.Floor(rule, 1, n)
+		})
 }
